@@ -51,27 +51,27 @@ theorem C12_reader_buffered (cfg : Cfg) (c : CC α) (n : Int) (hn : n ≤ (c.inp
   simp [CC.call, h]
 
 omit [DecidableEq α] in
-/-- After the peer closed, the remaining buffered bytes can still be read: on a connection without callbacks (one that
-is read through its Reader) neither the hang-up nor the user's own Close after it drops buffered input - `closeBuffer`
-recycles the input buffer only when it is empty.  Whatever was buffered when the peer closed is buffered afterwards. -/
-theorem C12_peer_close_keeps_buffered (c : CC α) (hcb : c.cb = false) (m : Mode) (hm : m = .peer ∨ m = .peerThenUser) :
+/-- After the peer closed, the remaining buffered bytes can still be read: on a connection without an OnRequest handler
+(one that is read through its Reader – with or without OnConnect) neither the hang-up, nor the teardown it starts when a
+callback is set, nor the user's own Close after it drops buffered input: `closeBuffer` recycles the input buffer only
+when it is empty (or a handler has been offered it).  Whatever was buffered when the peer closed is buffered afterwards. -/
+theorem C12_peer_close_keeps_buffered (c : CC α) (hreq : c.req = false) (m : Mode) (hm : m = .peer ∨ m = .peerThenUser) :
     (c.closeBy m).input.length = c.input.length ∧ (c.input.length ≠ 0 → (c.closeBy m).input = c.input) := by
-  rcases hm with h | h <;> subst h
-  · simp [CC.closeBy, hcb]
-  · by_cases ht : c.tornDown = true <;> by_cases hl : c.input.length = 0 <;>
-      simp [CC.closeBy, CC.teardown, CC.closeBuffer, hcb, ht, hl, closedLB]
+  rcases hm with h | h <;> subst h <;>
+    by_cases hcb : c.cb = true <;> by_cases ht : c.tornDown = true <;> by_cases hl : c.input.length = 0 <;>
+      simp [CC.closeBy, CC.teardown, CC.closeBuffer, hreq, hcb, ht, hl, closedLB]
 
-example : ∃ c : CC Nat, c.cb = false ∧ c.input.length ≠ 0 ∧ c.tornDown = false :=
-  ⟨{ closing := 0, tornDown := false, cb := false, input := { closedLB with length := 10 }, output := closedLB }, by decide⟩
+example : ∃ c : CC Nat, c.req = false ∧ c.cb = true ∧ c.input.length ≠ 0 ∧ c.tornDown = false :=
+  ⟨{ closing := 0, tornDown := false, cb := true, input := { closedLB with length := 10 }, output := closedLB }, by decide⟩
 
 /-- … and then reads of at most that many bytes are the buffer's own reads, longer ones fail with the close error
 (`C12_reader_buffered`, `C12_reader_short` applied to the state after the close). -/
-theorem C12_buffered_then_eof (cfg : Cfg) (c : CC α) (hcb : c.cb = false) (m : Mode) (hm : m = .peer ∨ m = .peerThenUser) (n : Int) :
+theorem C12_buffered_then_eof (cfg : Cfg) (c : CC α) (hreq : c.req = false) (m : Mode) (hm : m = .peer ∨ m = .peerThenUser) (n : Int) :
     (n ≤ (c.input.length : Int) → ((c.closeBy m).call cfg (.next n)) = ofBuf ((c.closeBy m).input.next cfg n) (c.closeBy m) setIn) ∧
     ((c.input.length : Int) < n → ((c.closeBy m).call cfg (.next n)) = (c.closeBy m, .err (shortErr (c.closeBy m)))) := by
-  have hk := (C12_peer_close_keeps_buffered c hcb m hm).1
+  have hk := (C12_peer_close_keeps_buffered c hreq m hm).1
   have hc : (c.closeBy m).closing = 1 ∨ (c.closeBy m).closing = 2 := by
-    rcases hm with h | h <;> subst h <;> simp [CC.closeBy, hcb]
+    rcases hm with h | h <;> subst h <;> by_cases hcb : c.cb = true <;> simp [CC.closeBy, CC.teardown, hcb] <;> (try split) <;> simp_all
   constructor
   · intro hn
     have h : (c.closeBy m).waitRead n = none := by simp [CC.waitRead, hk, hn]
